@@ -1140,6 +1140,12 @@ class Model:
             for _input in node.all_input_nodes():
                 if isinstance(node, Dist) and _input is node.at:
                     edges.append((node, _input))
+
+                    # the simulated value is written to the input of the proxy node,
+                    # so that node (and everything reading it directly) comes after
+                    # the distribution as well
+                    if isinstance(_input, VarValue):
+                        edges.append((node, _input.inputs[0]))
                 else:
                     edges.append((_input, node))
 
